@@ -59,16 +59,44 @@ def reaching_defs(g: cfgmod.CFG, var: str):
 
 
 def serialize_path_branch(ctx: Ctx):
-    q = DOC + ".serialize"
+    """The function that writes to a path destination: ProvDocument.serialize, or the private helper it hands the
+    destination to (the commit calls are looked for in the helper closure); `dest` is the name the caller's
+    destination has there."""
+    q0 = DOC + ".serialize"
+    f0 = ctx.fn(q0)
+    dest0 = f0.params[1]
+
+    def commits_in(q):
+        out = []
+        for c in calls_in(ctx.fn(q).node):
+            d = dotted(c.func) or ""
+            if d in COMMITS and len(c.args) >= 2:
+                out.append(c)
+        return out
+
+    q, dest = q0, dest0
+    if not commits_in(q0):
+        for cand in ctx.helper_closure(q0)[1:]:
+            opens_dest = any(call_name(c) == "open" for c in calls_in(ctx.fn(cand).node))
+            if commits_in(cand) or opens_dest:
+                # which parameter of the helper receives the destination?
+                cf = ctx.fn(cand)
+                for c in calls_in(f0.node):
+                    if call_name(c) == cf.name:
+                        ps = cf.params[1:] if (cf.cls and not cf.is_static) else cf.params
+                        for i, a in enumerate(c.args):
+                            ra = resolve_local(f0.node, a)
+                            if isinstance(ra, ast.Name) and ra.id == dest0 and i < len(ps):
+                                q, dest = cand, ps[i]
+                        for k in c.keywords:
+                            ra = resolve_local(f0.node, k.value)
+                            if isinstance(ra, ast.Name) and ra.id == dest0 and k.arg:
+                                q, dest = cand, k.arg
+                if q != q0:
+                    break
     fi = ctx.fn(q)
     g = get_cfg(ctx, q)
-    dest = fi.params[1]
-    commits = []
-    for c in calls_in(fi.node):
-        d = dotted(c.func) or ""
-        if d in COMMITS and len(c.args) >= 2:
-            commits.append(c)
-    return q, fi, g, dest, commits
+    return q, fi, g, dest, commits_in(q)
 
 
 @rule("C17", "C17.R1", "the committed path is the caller's path (identity, or a file: URL converted under an explicit scheme test); a local name is never refused", 2,
